@@ -35,7 +35,7 @@ func (h *half) Write(p []byte) (int, error) {
 	if h.jitter {
 		// hostile scheduling (concurrency stream): let other writers run between a client's
 		// bookkeeping and its write, so ordering assumptions of the client are exercised
-		for k := jitterCtr.Add(1) % 4; k > 0; k-- {
+		for k := jitterCtr.Add(1) % 6; k > 0; k-- {
 			runtime.Gosched()
 		}
 	}
